@@ -39,6 +39,8 @@ static Verdict run(const Case &c) {
         }
     }
     if (p >= 0) st[p] = OWN;
+    // [17] the own address stands in the list more than once (k further copies, spread over the list): still one acknowledgement, nothing else
+    for (int64_t k = 1; k <= std::min<int64_t>(c.c(17), 3) && p >= 0 && n >= 2; k++) st[(size_t)((p + k * (n / 4 + 1)) % n)] = OWN;
     Mac rdst = c.c(6) ? BCAST : OWN, edst = c.c(10, c.c(6)) ? BCAST : OWN;
     int extra = (int)std::max<int64_t>(0, std::min<int64_t>(c.c(11), 8));
     if (held < n) extra = 0;
@@ -108,7 +110,8 @@ static Verdict run(const Case &c) {
     // ---- oracle (event numbers: 1 reset, 2 noack, 3 acking, 4 noack changed, 5 acking changed, 6 topology reset, 7 hello)
     std::string got = fmt("classifier returned %d", ev);
     if (opcode == OP_DISCOVER) {
-        bool present = p >= 0 && p < held;
+        bool present = false;
+        for (int i = 0; i < held && i < (int)st.size(); i++) if (st[(size_t)i] == OWN) present = true;   // any copy of the own address among the stations the frame really holds
         if (n == 0) {
             if (changed ? !(ev == 4 || ev == 5) : !(ev == 2 || ev == 3)) v.fail(fmt("Discover with empty list, transaction %s: %s", changed ? "changed" : "unchanged", got.c_str()));
         } else if (held == 0) {
@@ -168,7 +171,7 @@ int main(int argc, char **argv) {
         for (int p = -1; p < n && ok; p++)
             for (int t = 0; t < T_NCLASSES && ok; t++, k++) {
                 if (k % a.nshards != a.shard) continue;
-                ok = one(a, ev, {n, p, (n + p + t) % 4 == 0 ? 3 : 0, t, OP_DISCOVER, n & 1, 1, -1, 0x1234, 0x0042, 1, (n + t) % 3 == 0 ? 2 : 0, 0, std::vector<int64_t>{0, 0, 59, 61, 500}[(size_t)(n + 2 * p + t + 2) % 5], std::vector<int64_t>{0, 0, 1, 2}[(size_t)(n + p + 3 * t + 1) % 4], (n * 5 + p + t) % 3 == 0 ? (n + t) % 6 : 0, (n + p + 2 * t) % 3}, "c11-layouts");
+                ok = one(a, ev, {n, p, (n + p + t) % 4 == 0 ? 3 : 0, t, OP_DISCOVER, n & 1, 1, -1, 0x1234, 0x0042, 1, (n + t) % 3 == 0 ? 2 : 0, 0, std::vector<int64_t>{0, 0, 59, 61, 500}[(size_t)(n + 2 * p + t + 2) % 5], std::vector<int64_t>{0, 0, 1, 2}[(size_t)(n + p + 3 * t + 1) % 4], (n * 5 + p + t) % 3 == 0 ? (n + t) % 6 : 0, (n + p + 2 * t) % 3, (n + 3 * p + t) % 5 == 0 ? 1 + (n + p) % 3 : 0}, "c11-layouts");
             }
     for (int opc = 0; opc < 256 && ok; opc++)
         for (int bc = 0; bc < 4 && ok; bc++) {   // real destination broadcast? x Ethernet destination broadcast?
@@ -183,7 +186,7 @@ int main(int argc, char **argv) {
             int64_t held = *gx::chance(25) ? *gx::range<int64_t>(0, n) : -1;
             int64_t opc = *gx::weighted<int64_t>({{12, rc::gen::just<int64_t>(0)}, {1, rc::gen::just<int64_t>(8)}, {1, rc::gen::just<int64_t>(1)}, {1, gx::range<int64_t>(0, 255)}});
             c.cfg = {n, p, *gx::pick({0, 0, 1, 2, 3}), *gx::range<int64_t>(0, T_NCLASSES - 1), opc, *gx::pick({0, 1}), *gx::pick({0, 1}), held,
-                     *gx::bnd({0, 1, 0xFFFF}, 0, 0xFFFF, 1, 1), *gx::bnd({0, 1, 0xFFFF}, 0, 0xFFFF, 1, 1), *gx::pick({0, 1}), *gx::pick({0, 0, 1, 3}), *gx::pick({0, 0, 0, 0, 1}), *gx::pick({0, 0, 0, 1, 59, 60, 61, 62, 500}), *gx::pick({0, 0, 0, 1, 2}), *gx::pick({0, 0, 0, 0, 1, 2, 3, 4, 5}), *gx::pick({0, 0, 1, 2})};
+                     *gx::bnd({0, 1, 0xFFFF}, 0, 0xFFFF, 1, 1), *gx::bnd({0, 1, 0xFFFF}, 0, 0xFFFF, 1, 1), *gx::pick({0, 1}), *gx::pick({0, 0, 1, 3}), *gx::pick({0, 0, 0, 0, 1}), *gx::pick({0, 0, 0, 1, 59, 60, 61, 62, 500}), *gx::pick({0, 0, 0, 1, 2}), *gx::pick({0, 0, 0, 0, 1, 2, 3, 4, 5}), *gx::pick({0, 0, 1, 2}), *gx::pick({0, 0, 0, 0, 1, 2, 3})};
             return c;
         });
         ok = run_cases(a, ev, "c11-random", a.n(600000, 4000000), 100, gen, run);
